@@ -367,7 +367,10 @@ func (r *hsRun) probe() *Violation {
 	if v != nil {
 		return v
 	}
-	id := resp.(*pubsubpb.PublishResponse).MessageIds[0]
+	id, v := oneMessageID(resp)
+	if v != nil {
+		return v
+	}
 	presp, v := step("Pull", "Pull", &pubsubpb.PullRequest{Subscription: sn, MaxMessages: 10, ReturnImmediately: true})
 	if v != nil {
 		return v
